@@ -94,6 +94,9 @@ C14_Reported    == (mode = "failed" /\ lastOp \in {"Write", "Flush", "Close"}) =
 C14_Converse    == (mode = "closed") => ~downSeen \/ kind = "zlib"
 C16_CloseIdem   == (mode = "closed" /\ lastOp = "Close" /\ ~cerr) => lastErr = "nil"
 C16_FinalStays  == tail = "final" => mode \in {"closed", "failed"}
+\* a Writer whose header cannot be encoded never reports success and never counts as closed
+C16_HeaderError == kind = BadHdr => /\ mode # "closed"
+                                    /\ (lastOp \in {"Write", "Flush", "Close"} => lastErr # "nil")
 \* within one stream the decodable prefix only grows and a closed Writer stays closed
 C01_Monotone    == [][lastOp' # "Reset" /\ mode # "none" => dec' >= dec]_mvars
 C16_Absorbing   == [][(mode = "closed" /\ lastOp' # "Reset") => mode' \in {"closed", "failed"}]_mvars
